@@ -369,23 +369,23 @@ Definition fresh_bnl (g : geo) : res (list str) :=
                                  Ok (map (fun c => block_name g (ln g lay) (cn g c)) cols)) (tl (llist g));
     Ok (atmn ++ concat under).
 (** [setup_block_connection_name_index()]: one layer.  [first]: ilay == 0; [prev]: layerlist[ilay] *)
+(** [col.surface <= lay.top] *)
+Definition surf_le_top (g : geo) (lay c : id) : res bool :=
+  match cs g c with None => Raise TypeError | Some s => Ok (Qle_bool s (lt g lay)) end.
 Definition vertical_names (g : geo) (first : bool) (prev lay : id) (cols : list id) : res (list key2) :=
   do per <- mapM (fun c =>
       let this := block_name g (ln g lay) (cn g c) in
-      match cs g c with
-      | None => Raise TypeError
-      | Some s =>
-          if first || Qle_bool s (lt g lay) then
-            match atm g with
-            | 0%nat => match bnl g with [] => Raise IndexError | b0 :: _ => Ok [(this, b0)] end
-            | 1%nat => match llist g with
-                       | [] => Raise IndexError
-                       | l0 :: _ => Ok [(this, block_name g (ln g l0) (cn g c))]
-                       end
-            | _ => Ok []
-            end
-          else Ok [(this, block_name g (ln g prev) (cn g c))]
-      end) cols;
+      do below <- surf_le_top g lay c;
+      if first || below then
+        match atm g with
+        | 0%nat => match bnl g with [] => Raise IndexError | b0 :: _ => Ok [(this, b0)] end
+        | 1%nat => match llist g with
+                   | [] => Raise IndexError
+                   | l0 :: _ => Ok [(this, block_name g (ln g l0) (cn g c))]
+                   end
+        | _ => Ok []
+        end
+      else Ok [(this, block_name g (ln g prev) (cn g c))]) cols;
   Ok (concat per).
 Definition horizontal_names (g : geo) (lay : id) (cols : list id) : list key2 :=
   map (fun k => (block_name g (ln g lay) (cn g (k0 g k)), block_name g (ln g lay) (cn g (k1 g k))))
